@@ -169,6 +169,36 @@ def check(ctx):
     okx = want_x in table and table[want_x][0] is not None and tuple(round(v, 9) for v in table[want_x][0]) == (round(math.pi, 9), 0.0, 0.0)
     ctx.inst('R3', df, 'x-negative->flip-about-z', okz, 'x-axis mean mapping to X<0 is corrected by a half turn about Z; table %s' % {k: v[0] for k, v in table.items()})
     ctx.inst('R3', df, 'z-negative->flip-about-x', okx, 'first base station mapping to Z<0 is corrected by a half turn about X; table %s' % {k: v[0] for k, v in table.items()})
+    # the result on each of the four paths, with every local read back to what it was computed from (the function is straight-line
+    # code with two tests; the geometry calls are pure): independent of how many locals carry the transform on the way
+    sp_ = straightline_paths(df)
+    if sp_ is not None:
+        def tok(txt):
+            import re
+            def rep(m_):
+                try:
+                    v_ = fold(ast.parse(m_.group(1), mode='eval').body, Scope.of(df))
+                    v_ = tuple(round(x_, 9) for x_ in v_)
+                except Exception:
+                    return 'F?'
+                return {(0.0, 0.0, round(math.pi, 9)): 'FZ', (round(math.pi, 9), 0.0, 0.0): 'FX'}.get(v_, 'F?')
+            return re.sub(r'Pose\.from_rot_vec\(R_vec=(\([^()]*\))\)', rep, txt)
+        tz = '%s.rotate_translate(np.mean(%s, axis=0))[0] < 0.0' % (raw, xa)
+        tx = '%s.rotate_translate(list(%s.values())[0].translation)[2] < 0.0' % (raw, bsp2)
+        got = {}
+        for conds, ret in sp_:
+            cd = dict(conds)
+            got[(cd.get(tz), cd.get(tx))] = tok(ret) if ret is not None else None
+        want_tbl = {(False, False): raw, (True, False): 'FZ.rotate_translate_pose(%s)' % raw, (False, True): 'FX.rotate_translate_pose(%s)' % raw,
+                    (True, True): 'FX.rotate_translate_pose(FZ.rotate_translate_pose(%s))' % raw}
+        ctx.inst('R3', df, 'flips-compose-on-the-left', got.get((True, True)) == want_tbl[(True, True)] and got.get((True, False)) == want_tbl[(True, False)] and
+                 got.get((False, True)) == want_tbl[(False, True)], 'each flip F is applied as F.rotate_translate_pose(transform so far); results per path %s' % got)
+        ctx.inst('R3', df, 'references', set(got) == set(want_tbl) and got.get((False, False)) == raw,
+                 'tests use the mean x-axis sample and the first base station; start from the raw transform; paths %s' % sorted(got, key=str))
+        ctx.inst('R3', df, 'returns-transform', got == want_tbl, 'the (possibly flipped) transform is returned on every path')
+        r3_done = True
+    else:
+        r3_done = False
     rets = [norm(s.value) for s in walk_own(df.node) if isinstance(s, ast.Return)]
     # the running transform is whatever local is returned (any name): it starts as the raw solution and only flips re-bind it
     cur = rets[0] if len(set(rets)) == 1 and rets and rets[0].isidentifier() else 'transformation'
@@ -178,13 +208,14 @@ def check(ctx):
     for n in comps:
         flipvar = norm(n.ast.value.func.value)
         ok = ok and any(g.dominates(f, n) and norm(f.ast.targets[0]) == flipvar and g.fact_keys_at(f) == g.fact_keys_at(n) for f in flips)
-    ctx.inst('R3', df, 'flips-compose-on-the-left', ok, 'each flip F is applied as F.rotate_translate_pose(current transform) under its own test')
     st = {norm(s.targets[0]): norm(s.value) for s in df.node.body if isinstance(s, ast.Assign)}
     compsts = {id(n.ast) for n in comps}
     others = [st_ for t, st_ in stores(df.node) if norm(t) == cur and id(st_) not in compsts and not (isinstance(st_, ast.Assign) and norm(st_.value) == raw)]
-    ctx.inst('R3', df, 'references', want_z in table and want_x in table and st.get(cur) == raw and not others,
-             'tests use the mean x-axis sample and the first base station; start from the raw transform')
-    ctx.inst('R3', df, 'returns-transform', rets == [cur] and len(comps) == 2, 'the (possibly flipped) transform is returned')
+    if not r3_done:
+        ctx.inst('R3', df, 'flips-compose-on-the-left', ok, 'each flip F is applied as F.rotate_translate_pose(current transform) under its own test')
+        ctx.inst('R3', df, 'references', want_z in table and want_x in table and st.get(cur) == raw and not others,
+                 'tests use the mean x-axis sample and the first base station; start from the raw transform')
+        ctx.inst('R3', df, 'returns-transform', rets == [cur] and len(comps) == 2, 'the (possibly flipped) transform is returned')
 
     # ---- R4: purity ------------------------------------------------------------------------
     for K, names in ((A, ('align', '_find_transformation', '_de_flip_transformation', '_calc_residual')),
@@ -202,14 +233,33 @@ def check(ctx):
     ss = S.method('_scale_system')
     calls = [c for c in ast.walk(ss.node) if method_call(c, 'scale')]
     ok = len(calls) == 2
+    fused = []                     # (input iterated, kept in) for the copy-scale-store-in-one-loop form
+    gss = cfg_of(ss)
     for c in calls:
         v = norm(c.func.value)
         loops = [l for l in walk_own(ss.node) if isinstance(l, ast.For) and norm(l.target) == v]
         src = norm(loops[0].iter).replace('.values()', '') if loops else None
         d = [s for s in ss.node.body if isinstance(s, ast.Assign) and norm(s.targets[0]) == src]
-        ok = ok and len(d) == 1 and isinstance(d[0].value, (ast.DictComp, ast.ListComp)) and \
+        two_pass = len(d) == 1 and isinstance(d[0].value, (ast.DictComp, ast.ListComp)) and \
             norm(d[0].value.value if isinstance(d[0].value, ast.DictComp) else d[0].value.elt).startswith(('copy.copy(', 'copy.deepcopy('))
-    ctx.inst('R4', ss, 'scale-only-copies', ok, '.scale is applied only to elements of containers built with copy.copy/deepcopy')
+        one_pass = False
+        if not two_pass and isinstance(c.func.value, ast.Name):
+            # copy, scale and store in one loop: the receiver is a local bound (only) to copy.copy(<loop variable>) in the same loop body,
+            # the call is a statement of that body, and the copy is what goes into the result
+            n_ = gss.node_of(c)
+            defs = gss.reaching_defs(n_, v) if n_ is not None else []
+            vals = [gss.def_value(d_, v) for d_ in defs if d_.ast is not None]
+            encl = [l for l in walk_own(ss.node) if isinstance(l, ast.For) and any(isinstance(x, ast.Expr) and x.value is c for x in l.body)]
+            if len(defs) == 1 and len(vals) == 1 and vals[0] is not None and norm(vals[0].func if isinstance(vals[0], ast.Call) else vals[0]) in ('copy.copy', 'copy.deepcopy') and len(encl) == 1:
+                lv = {x.id for x in ast.walk(encl[0].target) if isinstance(x, ast.Name)}
+                arg = vals[0].args[0] if vals[0].args else None
+                kept = [norm(x.targets[0].value) for x in encl[0].body if isinstance(x, ast.Assign) and isinstance(x.targets[0], ast.Subscript) and norm(x.value) == v] + \
+                       [norm(x.value.func.value) for x in encl[0].body if isinstance(x, ast.Expr) and method_call(x.value, 'append') and [norm(a) for a in x.value.args] == [v]]
+                one_pass = isinstance(arg, ast.Name) and arg.id in lv and len(kept) == 1 and any(d_.ast is x for d_ in defs for x in encl[0].body)
+                if one_pass:
+                    fused.append((norm(encl[0].iter), kept[0]))
+        ok = ok and (two_pass or one_pass)
+    ctx.inst('R4', ss, 'scale-only-copies', ok, '.scale is applied only to copies (copy.copy/deepcopy) of the given poses, never to the poses themselves')
     sc_ = P.method('scale')
     body = effective(sc_.node.body)
     ok = len(body) == 1 and isinstance(body[0], ast.Assign) and norm(body[0].targets[0]) == 'self._t_vec' and canon(body[0].value) == canon(ast.parse('self._t_vec * %s' % sc_.params[1], mode='eval').body)
@@ -219,7 +269,10 @@ def check(ctx):
     wr = sorted({norm(t) for s in ast.walk(sc_.node) if isinstance(s, (ast.Assign, ast.AugAssign)) for t in (s.targets if isinstance(s, ast.Assign) else [s.target])})
     ctx.inst('R5', sc_, 'scale-touches-translation-only', wr == ['self._t_vec'], 'Pose.scale writes %s; rotations must stay unchanged' % wr)
     its = sorted(norm(l.iter) for l in walk_own(ss.node) if isinstance(l, ast.For))
-    ctx.inst('R5', ss, 'scales-every-pose', its == ['bs_scaled.values()', 'cf_scaled'], 'every base station and every Crazyflie pose is scaled; loops %s' % its)
+    pb, pc = ss.params[1], ss.params[2]
+    every = its == ['bs_scaled.values()', 'cf_scaled'] or \
+        (len(fused) == 2 and sorted(i_ for i_, _ in fused) == sorted(['%s.items()' % pb, pc]) and its == sorted(i_ for i_, _ in fused))
+    ctx.inst('R5', ss, 'scales-every-pose', every, 'every base station and every Crazyflie pose is scaled; loops %s' % its)
     # the factor, followed from each public entry point through _scale_system (wherever the division is written): every .scale call
     # and the returned factor are the one quotient expected / actual
     from ..symexec import Explorer as _Ex
@@ -280,6 +333,63 @@ def check(ctx):
         rets = [s.value for s in walk_own(f.node) if isinstance(s, ast.Return)]
         ok = len(rets) == 1 and isinstance(rets[0], ast.Call) and norm(rets[0].func) == 'cls._scale_system' and [norm(a) for a in rets[0].args[:2]] == [f.params[1], f.params[2]]
         ctx.inst('R5', f, 'delegates', ok, 'scaling is done by _scale_system(bs_poses, cf_poses, ...) on the caller\'s poses')
+
+
+def straightline_paths(func, limit=64):
+    """[( ((test text, polarity), ..), returned text )] for a function made of plain bindings, ifs and returns only - every local
+    replaced by the expression it was bound to (calls included: the caller vouches that they are pure).  None for anything else."""
+    import copy as _copy
+    out = []
+
+    class Sub(ast.NodeTransformer):
+        def __init__(self, env):
+            self.env = env
+
+        def visit_Name(self, n):
+            if isinstance(n.ctx, ast.Load) and n.id in self.env:
+                return _copy.deepcopy(self.env[n.id])
+            return n
+
+    def sub(e, env):
+        return Sub(env).visit(_copy.deepcopy(e))
+
+    def run(stmts, env, conds):
+        # -> list of (env, conds) that fall through; appends finished paths to out; raises ValueError on unsupported code
+        live = [(env, conds)]
+        for st in stmts:
+            nxt = []
+            for env_, conds_ in live:
+                if isinstance(st, ast.Assign) and len(st.targets) == 1 and isinstance(st.targets[0], ast.Name):
+                    e2 = dict(env_)
+                    e2[st.targets[0].id] = sub(st.value, env_)
+                    nxt.append((e2, conds_))
+                elif isinstance(st, ast.AnnAssign) and isinstance(st.target, ast.Name) and st.value is not None:
+                    e2 = dict(env_)
+                    e2[st.target.id] = sub(st.value, env_)
+                    nxt.append((e2, conds_))
+                elif isinstance(st, ast.If):
+                    t = norm(sub(st.test, env_))
+                    nxt += run(st.body, dict(env_), conds_ + ((t, True),))
+                    nxt += run(st.orelse, dict(env_), conds_ + ((t, False),))
+                elif isinstance(st, ast.Return):
+                    out.append((conds_, norm(sub(st.value, env_)) if st.value is not None else None))
+                elif isinstance(st, ast.Expr) and isinstance(st.value, ast.Constant):
+                    nxt.append((env_, conds_))
+                elif isinstance(st, ast.Pass):
+                    nxt.append((env_, conds_))
+                else:
+                    raise ValueError(type(st).__name__)
+                if len(nxt) + len(out) > limit:
+                    raise ValueError('too many paths')
+            live = nxt
+        return live
+    try:
+        rest = run(func.node.body, {}, ())
+    except ValueError:
+        return None
+    for env_, conds_ in rest:
+        out.append((conds_, None))
+    return out
 
 
 VARIANTS = [
